@@ -110,7 +110,7 @@ theorem ext_sound (d : Defs) (pm : PatternMatch) (ext : List (String × String))
     have hk := List.find?_some hd
     simp only [Bool.and_eq_true, Bool.or_eq_true, beq_iff_eq, List.isEmpty_iff, List.contains_eq_mem,
       decide_eq_true_eq] at this hk
-    exact ⟨kd, hm, hk, this.1, this.2⟩
+    exact ⟨kd, hm, hk, this.1.2, this.2⟩
 
 /-- **tax combos**: when the regime that applies to the combo (country override,
     else the document's) is defined, an accepted combo's category belongs to it,
@@ -285,8 +285,11 @@ theorem stored_total_sound (d : Defs) (pm : PatternMatch) (cats : List CategoryT
   intro ct hct rt hrt
   have h1 := h ct hct
   unfold validateCategoryTotal at h1
-  rw [List.all_eq_true] at h1
-  exact ext_sound d pm rt.ext (h1 rt hrt)
+  simp only [Bool.and_eq_true, List.all_eq_true] at h1
+  have h2 := h1.2 rt hrt
+  unfold validateRateTotal at h2
+  simp only [Bool.and_eq_true] at h2
+  exact ext_sound d pm rt.ext h2.2
 
 /-- **addons**: every accepted addon key is a published addon -/
 theorem addons_sound (d : Defs) (keys : List String) (h : validateAddons d keys = true) :
@@ -377,11 +380,20 @@ theorem undefined_tag_is_rejected_on_invoices :
     validateTags (defs.regimeFor "ES") [] "bill/order" ["simplified"] = false := by decide +kernel
 
 /-- the hypothesis of `stored_total_sound` is satisfiable, and an undefined value or key
-    in a rate of a stored summary is refused -/
+    in a rate of a stored summary is refused, as are a category without code or rates, an
+    unknown rate country and an empty extension value -/
 theorem undefined_stored_ext_is_rejected :
     validateTotal defs (fun _ _ => true) [⟨"VAT", [⟨"", "", [("es-tbai-exemption", "E1")]⟩]⟩] = true ∧
     validateTotal defs (fun _ _ => true) [⟨"VAT", [⟨"", "", [("es-tbai-exemption", "ZZZ")]⟩]⟩] = false ∧
-    validateTotal defs (fun _ _ => true) [⟨"VAT", [⟨"", "", [("zz-undefined-key", "E1")]⟩]⟩] = false := by decide +kernel
+    validateTotal defs (fun _ _ => true) [⟨"VAT", [⟨"", "", [("zz-undefined-key", "E1")]⟩]⟩] = false ∧
+    -- since `CategoryTotal.Validate` requires code and rates, `RateTotal.Validate` checks the
+    -- country and `Extensions.Validate` requires the value:
+    validateTotal defs (fun _ _ => true) [⟨"", [⟨"", "", []⟩]⟩] = false ∧
+    validateTotal defs (fun _ _ => true) [⟨"VAT", []⟩] = false ∧
+    validateTotal defs (fun _ _ => true) [⟨"VAT", [⟨"", "ZZ", []⟩]⟩] = false ∧
+    validateTotal defs (fun _ _ => true) [⟨"VAT", [⟨"standard", "ES", []⟩]⟩] = true ∧
+    validateTotal defs (fun _ _ => true) [⟨"VAT", [⟨"", "", [("mx-cfdi-prod-serv", "")]⟩]⟩] = false ∧
+    validateTotal defs (fun _ _ => true) [⟨"VAT", [⟨"", "", [("mx-cfdi-prod-serv", "01010101")]⟩]⟩] = true := by decide +kernel
 
 /-! ### where the rules are applied (regenerated from bill/*.go, tax/*.go, org/document_ref.go) -/
 section Applied
@@ -428,8 +440,8 @@ theorem prices_include_rule_applied :
     store one (document references, payments) validate the field -/
 theorem stored_total_rules_applied :
     rules_Total_Validate = [("Categories", [])] ∧
-    rules_CategoryTotal_Validate = [("Rates", [])] ∧
-    rules_RateTotal_Validate = [("Ext", [])] ∧
+    rules_CategoryTotal_Validate = [("Code", ["validation.Required"]), ("Rates", ["validation.Required"])] ∧
+    rules_RateTotal_Validate = [("Key", []), ("Country", []), ("Ext", [])] ∧
     ("Tax", []) ∈ rules_DocumentRef_ValidateWithContext ∧
     ("Tax", []) ∈ rules_Payment_ValidateWithContext := by decide +kernel
 
